@@ -4,6 +4,7 @@ import (
 	"fmt"
 	"html/template"
 	"strings"
+	"time"
 
 	"verifmc/engine"
 
@@ -144,6 +145,7 @@ func c01Sources(p string) []c01Expr {
 		{"[]HTML-elem", "phsl[0]", c01Trusted(p)},
 		{"[]interface-HTML-elem", "phil[0]", c01Trusted(p)},
 		{"map-HTML-value", `phm["k"]`, c01Trusted(p)},
+		{"[]HTML-whole", "phsl", c01Val{[]c01Atom{{"trusted", p}}, false, false}},
 		{"HTMLer-struct-field", "phs.R", c01Val{[]c01Atom{{"trusted", p}}, false, false}},
 		{"[]interface-mixed-whole", "pmix", c01Val{[]c01Atom{{"trusted", p}, {"plain", p}}, false, false}},
 		{"HTMLer-that-is-also-a-Stringer", "phrs", c01Val{[]c01Atom{{"trusted", p}}, false, false}},
@@ -363,7 +365,7 @@ func init() {
 	engine.Register(&engine.Prop{
 		ID: "C01",
 		Shards: func(th bool) []string {
-			s := []string{"bytes", "short", "typed"}
+			s := []string{"bytes", "short", "typed", "timeformat"}
 			for wi := range c01Wraps {
 				for pi := range c01Payloads {
 					s = append(s, fmt.Sprintf("routes:%d:%d", wi, pi))
@@ -372,7 +374,7 @@ func init() {
 			return s
 		},
 		Run:  c01Run,
-		Rule: "payload x source x value-route^d x emit-form x wrapper^e. Sources (28): context string, struct / pointer-struct field, map[string]string and map[string]interface{} value, []string / []interface{} / nested slice element (literal and variable index), whole []string / []interface{}, Go helper returning string / interface{}, user-function result, double- and back-quoted literal, and the trusted ones: template.HTML variable, HTMLer, raw(x), helper returning template.HTML, template.HTML / HTMLer struct fields, []template.HTML and []interface{} elements, map[string]template.HTML value, mixed []interface{}, a value that is both HTMLer and fmt.Stringer; and a plain fmt.Stringer (by value and by pointer), whose text is a Go string and therefore escaped; values of a named string type (directly, in a slice, as a struct field: printed escaped or not at all); debug(x), whose pre tags are markup and whose printed argument is data. Value routes (12, incl. a template function with literal text before its return): \"\"+x, x+\"\", x+x, x+raw(), [x][0], [x,x], [raw(),x,raw()], {k:x}[k], Go identity helpers (string / interface{}), user function. Emit forms (11, incl. partial data under the key the layout mechanism uses, yield): output tag, return from if / for / fn, let then emit, loop variable, partial data, contentOf data, function argument emitted inside the body, Go helper result when the helper was called with a block. Wrappers (12): top, if, else, for, fn body, helper block via Block() / BlockWith(), contentFor->contentOf (with and without data), contentOf default block, partial, partial with layout. A reference evaluator over the route gives the expected atom list (plain | trusted | literal frame); the output is walked along it: a plain atom must appear with every < > & ' \" as an entity (any spelling) and every other byte unchanged, a trusted atom byte-identical, nothing dropped, nothing emitted twice. (typed) every scalar source and depth-1 route passed to Go helpers whose parameter (fixed, second, variadic) is typed template.HTML: plain strings are refused or stay escaped, trusted HTML passes verbatim. (bytes) every single byte 0x01..0xFF and (short) every string of length <=3 over {< > & ' \" a &amp; é 世 \\xff} through every source and the direct emit forms. Non-trivial: payload contains a special character and the route has depth >= 1.",
+		Rule: "payload x source x value-route^d x emit-form x wrapper^e. Sources (28): context string, struct / pointer-struct field, map[string]string and map[string]interface{} value, []string / []interface{} / nested slice element (literal and variable index), whole []string / []interface{}, Go helper returning string / interface{}, user-function result, double- and back-quoted literal, and the trusted ones: template.HTML variable, HTMLer, raw(x), helper returning template.HTML, template.HTML / HTMLer struct fields, []template.HTML and []interface{} elements, map[string]template.HTML value, mixed []interface{}, a value that is both HTMLer and fmt.Stringer; and a plain fmt.Stringer (by value and by pointer), whose text is a Go string and therefore escaped; values of a named string type (directly, in a slice, as a struct field: printed escaped or not at all); debug(x), whose pre tags are markup and whose printed argument is data. Value routes (12, incl. a template function with literal text before its return): \"\"+x, x+\"\", x+x, x+raw(), [x][0], [x,x], [raw(),x,raw()], {k:x}[k], Go identity helpers (string / interface{}), user function. Emit forms (11, incl. partial data under the key the layout mechanism uses, yield): output tag, return from if / for / fn, let then emit, loop variable, partial data, contentOf data, function argument emitted inside the body, Go helper result when the helper was called with a block. Wrappers (12): top, if, else, for, fn body, helper block via Block() / BlockWith(), contentFor->contentOf (with and without data), contentOf default block, partial, partial with layout. A reference evaluator over the route gives the expected atom list (plain | trusted | literal frame); the output is walked along it: a plain atom must appear with every < > & ' \" as an entity (any spelling) and every other byte unchanged, a trusted atom byte-identical, nothing dropped, nothing emitted twice. (timeformat) every payload as literal text of the context's TIME_FORMAT, a time printed in 5 ways. (typed) every scalar source and depth-1 route passed to Go helpers whose parameter (fixed, second, variadic) is typed template.HTML: plain strings are refused or stay escaped, trusted HTML passes verbatim. (bytes) every single byte 0x01..0xFF and (short) every string of length <=3 over {< > & ' \" a &amp; é 世 \\xff} through every source and the direct emit forms. Non-trivial: payload contains a special character and the route has depth >= 1.",
 		Bound: func(th bool) string {
 			if th {
 				return "9 payloads x value routes d<=2 x 10 emit forms x wrappers e<=2"
@@ -500,6 +502,37 @@ func c01Run(t *engine.T, shard string) {
 						return "passed", nil
 					})
 				}
+			}
+		}
+	case "timeformat":
+		// the layout a time is printed with comes from the context like any other string
+		for _, p := range c01Payloads {
+			p := p
+			for _, form := range []string{`<%= tm %>`, `<%= [tm][0] %>`, `<%= if (true) { %><%= tm %><% } %>`, `<%= blk() { %><%= tm %><% } %>`, `<% let tf = fn() { return tm } %><%= tf() %>`} {
+				form := form
+				t.Case(fmt.Sprintf("timeformat payload=%q %s", p, q(form)), strings.ContainsAny(p, `<>&'"`), func() (string, *engine.Fail) {
+					e := &c01Env{p: p, partials: map[string]string{}}
+					c := e.context()
+					c.Set("tm", time.Date(2021, 3, 4, 5, 6, 7, 0, time.UTC))
+					c.Set("TIME_FORMAT", p+"|2006")
+					out, err := Render("A|"+form+"|B", c)
+					if err != nil {
+						return "", engine.Failf("error", "unexpected error %v", err)
+					}
+					atoms := []c01Atom{{"lit", "A|"}}
+					if strings.Contains(form, "blk()") {
+						atoms = append(atoms, c01Atom{"lit", "{"})
+					}
+					atoms = append(atoms, c01Atom{"plain", p}, c01Atom{"lit", "|2021"})
+					if strings.Contains(form, "blk()") {
+						atoms = append(atoms, c01Atom{"lit", "}"})
+					}
+					atoms = append(atoms, c01Atom{"lit", "|B"})
+					if f := c01Match(out, atoms); f != nil {
+						return "", f
+					}
+					return "escaped", nil
+				})
 			}
 		}
 	case "routes":
